@@ -17,7 +17,9 @@ P = {
                  "C18_invalid_keeps_previous", "C18_frame",
                  "C18_fs_all_histories", "C18_fs_stored_hash", "C18_http_all_histories", "C18_http_stored_hash",
                  "C18_fs_active_is_stored_hash", "C18_http_active_is_stored_hash", "C18_fs_converges_world",
-                 "C18_fs_F2_refuted", "C18_fs_F4_refuted", "C18_fs_nonvacuous"],
+                 "C18_fs_F2_refuted", "C18_fs_F4_refuted", "C18_fs_nonvacuous",
+                 "C18_blob_all_histories", "C18_blob_stored_hash", "C18_blob_F1_refuted", "C18_blob_F5_refuted",
+                 "C18_blob_F6_refuted"],
     "streams": [{
         "name": "fs", "pkg": "./internal/rules/provider/filesystem", "test": "TestVerifC18Fs",
         "overlay": dict(_COMMON, **{"internal/rules/provider/filesystem/zz_verif_c18_test.go": "c18/fs_test.go"}),
@@ -33,6 +35,11 @@ P = {
         "overlay": dict(_COMMON, **{"internal/rules/provider/cloudblob/zz_verif_c18_test.go": "c18/blob_test.go"}),
         "eval_module": "Run.Eval_C18", "check_term": "check_blob " + _B("F1"),
         "n_quick": 400, "n_thorough": 15000, "findings": {1: "C18-F1", 5: "C18-F5", 6: "C18-F6"},
+    }, {
+        "name": "k8s", "pkg": "./internal/rules/provider/kubernetes", "test": "TestVerifC18K8s",
+        "overlay": dict(_COMMON, **{"internal/rules/provider/kubernetes/zz_verif_c18_test.go": "c18/k8s_test.go"}),
+        "eval_module": "Run.Eval_C18", "check_term": "check_k8s",
+        "n_quick": 300, "n_thorough": 10000, "findings": {},
     }],
     "rule": "per provider, generated histories of 1-30 events over 1-3 sources (file system: file changes valid/absent/empty/"
             "invalid with 5 empty and 11 invalid byte variants, fsnotify events of every kind incl. combined op bits, orderly and "
@@ -52,18 +59,19 @@ P = {
                 "the rule-set processor is an oracle per content (accept/reject) and per source (deletion accepted/refused)",
                 "fsnotify, gocron scheduling, net/http transport: the drivers call the event entry points synchronously "
                 "(ruleSetsChanged, loadInitialRuleSet, watchChanges); delivery and scheduling of events are not modelled"],
-    "level_text": "Proof (kernel-checked, no axioms): for the file-system and HTTP-endpoint provider models, for ALL finite histories "
+    "level_text": "Proof (kernel-checked, no axioms): for the file-system, HTTP-endpoint and cloud-blob provider models, for ALL finite histories "
                   "of source changes, notifications/polls (any kind, repeated, out of order) and fetch outcomes, the sequence of "
                   "accepted OnCreated/OnUpdated/OnDeleted calls is exactly the one that tracks the latest valid content seen of each "
                   "source (trace_ok), by induction with the invariant stored hash = latest valid content seen; from trace_ok follow "
                   "convergence, exactly-once application, no reload on unchanged content, unloading of removed/emptied sources and "
                   "keeping the previous version on invalid/rejected content. The models are tied to provider.go/ruleset_endpoint.go by "
-                  "running the real handlers on ~900 (quick) generated histories per run and comparing calls, results, returned errors "
+                  "running the real handlers on ~1300 (quick) generated histories per run and comparing calls, results, returned errors "
                   "and stored hashes per event.",
     "level_note": "File system: proved outside the guards of the open findings C18-F2 (Rename ignored) and C18-F4 (stale Remove), and "
                   "without guards for the repaired dispatch (fixes/C18-F2.diff). Trusted: Coq kernel/vm_compute; the correspondence "
                   "harness; hashes as content identities; parser and processor as oracles; event delivery (fsnotify, scheduler) not "
-                  "modelled. Cloud blob and Kubernetes providers: see docs/notes/C18.md for their state.",
+                  "modelled. Cloud blob: proved outside the guards of C18-F1 (fix candidate), C18-F5, C18-F6 for histories "
+                  "conforming to the endpoint configuration; the cloud store is an in-memory driver stub. Kubernetes: see docs/notes/C18.md.",
     "assumptions": ["in-package drivers read Provider.states and call unexported handlers: a rename of those breaks the driver, not the property",
                     "the processor's answer depends only on the content (create/update) or the source (delete), not on the call history"],
 }
